@@ -194,7 +194,9 @@ class Scenario:
         Returns a description of what a correct completion means."""
         sc = self.sc
         op = sc["op"]
+        self.last_pio = None
         pio = self.open(path)
+        self.last_pio = pio
         if op == "store_chunk":
             if self.new_cc is None:
                 return None
@@ -243,10 +245,12 @@ class Scenario:
             order = list(self.grid)
             rng = np.random.default_rng(sc["seed"])
             rng.shuffle(order)
+            self.accepted = []
             for i, cc in enumerate(order):
                 arr = content(sc, cc, 1000 + i)
                 pio.write_chunk(arr, "s1", cc)
                 new.append(("s1", cc, arr))
+                self.accepted.append(("s1", cc, arr))
             pio.accessor.close()
             return ("stored", new)
         raise HarnessError("unknown op " + op)
@@ -376,6 +380,34 @@ def check_scenario(ctx, sc):
                              "of a data-access / I/O error [%s]" % (
                                  ename, site, type(exc).__name__,
                                  str(exc)[:120], describe(sc)))
+                if sc["op"] == "write_close" and S.last_pio is not None \
+                        and len(getattr(S, "accepted", [])) == len(S.grid):
+                    # (only when the failure happened inside close() itself,
+                    # i.e. every chunk had been accepted: the state of an
+                    # accessor after a failed store_chunk is not specified)
+                    # a retried close() (explicit, or the exit handler) must
+                    # not claim success while chunks are missing
+                    try:
+                        S.last_pio.accessor.close()
+                        retried = True
+                    except Exception:
+                        retried = False
+                    if retried:
+                        pio_chk = ds.open_dataset(w)
+                        for key, cc, arr in list(S.accepted):
+                            try:
+                                got = pio_chk.read_chunk(key, cc)
+                                okc = same(sc, got, arr)
+                            except Exception:
+                                okc = False
+                            if not okc:
+                                ctx.fail("%s at %s: the operation failed, a "
+                                         "later close() on the same accessor "
+                                         "returned normally, but chunk %s %s, "
+                                         "which store_chunk had accepted, is "
+                                         "missing or wrong [%s]" % (
+                                             ename, site, key, cc,
+                                             describe(sc)))
                 exempt = None
                 if sc["op"] == "overwrite_chunk" and first_wopen is not None \
                         and k > first_wopen:
